@@ -57,6 +57,10 @@ class PendingNamedExpr(PendingExprGeneric[NamedExpr]):
 
     def get_result(self) -> expr:
         assert self.value is not None
+        for pending in reversed(self.nsp.comp_stack):
+            if isinstance(pending, PendingLambda):
+                # a walrus inside a lambda binds a local of that lambda
+                return NamedExpr(target=self.node.target, value=self.value)
         result = self.nsp.get_assign(self.node.target.id, self.value)
         if not isinstance(result, NamedExpr):
             result = Subscript(
@@ -143,6 +147,16 @@ class PendingLambda(PendingExprGeneric[Lambda]):
             self.target_names.add(_args.vararg.arg)
         if _args.kwarg is not None:
             self.target_names.add(_args.kwarg.arg)
+        # names bound by a walrus in the body are locals of the lambda, too
+        # (an inner lambda keeps its own)
+        _todo: list[AST] = [node.body]
+        while _todo:
+            _node = _todo.pop()
+            if isinstance(_node, Lambda):
+                continue
+            if isinstance(_node, NamedExpr):
+                self.target_names.add(_node.target.id)
+            _todo.extend(iter_child_nodes(_node))
 
         self.iter_fields = self._iter_fields()
 
